@@ -2,7 +2,7 @@
 import os
 import subprocess
 
-LEAN_MODULES = ["WildModel.Lemmas.C14Sem", "WildModel.Props.C14"]
+LEAN_MODULES = ["WildModel.Lemmas.C14Sem", "WildModel.Lemmas.C14Tls", "WildModel.Lemmas.C14Bounds", "WildModel.Props.C14"]
 THEOREMS = [
     # end-to-end (real decision + real apply of the model, any flags/output kind/section flags, any trailing bytes, any state/S)
     "Wild.C14.rex_mov_to_abs_ok",
@@ -24,6 +24,45 @@ THEOREMS = [
     "Wild.C14.legacy_heads",
     "Wild.C14.prefixed_lea",
     "Wild.C14.branch_heads",
+    # end-to-end, remaining GOT rewrites: legacy mov -> mov $imm32 / lea, call/jmp *GOT -> direct, REX mov -> lea, plain GOTPCREL
+    # (any single prefix byte), APX REX2 (0xd5) forms
+    "Wild.C14.gotpcrelx_mov_ok",
+    "Wild.C14.gotpcrelx_call_ok",
+    "Wild.C14.gotpcrelx_jmp_ok",
+    "Wild.C14.rex_mov_to_lea_ok",
+    "Wild.C14.gotpcrel_mov_to_lea_ok",
+    "Wild.C14.gotpcrel_prefixed_mov_to_lea_ok",
+    "Wild.C14.rex2_gotpcrelx_ok",
+    "Wild.C14.dec41",
+    "Wild.C14.dec43",
+    # TLS: sequence-level (decodeIns/stepIns/runSeq, __tls_get_addr abstracted) GD->LE, GD->IE, LD->LE (PLT and GOT call);
+    # instruction-level IE->LE (REX and REX2)
+    "Wild.C14.tls_gd_to_le_ok",
+    "Wild.C14.tls_gd_to_ie_ok",
+    "Wild.C14.tls_ld_to_le_ok",
+    "Wild.C14.tls_ld_to_le_noplt_ok",
+    "Wild.C14.tls_ld_to_le_64_ok",
+    "Wild.C14.tls_gd_to_le_large_ok",
+    "Wild.C14.gottpoff_ok",
+    "Wild.C14.rex2_gottpoff_ok",
+    "Wild.C14.gd_le_sem",
+    "Wild.C14.gd_ie_sem",
+    "Wild.C14.dec19",
+    "Wild.C14.dec20",
+    "Wild.C14.dec22",
+    "Wild.C14.dec44",
+    # index safety of apply after the decision (all 18 kinds, every byte list) + witnesses that the length hypothesis is needed
+    "Wild.C14.relax_window_in_bounds",
+    "Wild.C14.relax_field_in_bounds",
+    "Wild.C14.apply_in_bounds",
+    "Wild.C14.decision_behind",
+    "Wild.C14.relax_window_needs_length_witness",
+    "Wild.C14.tlsld_truncated_panics",
+    "Wild.C14.tlsld_noplt_truncated_panics",
+    "Wild.C14.tlsld64_truncated_panics",
+    "Wild.C14.tlsdesc_call_truncated_panics",
+    "Wild.C14.jmp_truncated_panics",
+    "Wild.C14.tlsdesc_truncated_panics",
 ]
 LEVEL = "proof"
 NEEDS_WILD = False
@@ -37,6 +76,10 @@ TRUSTED = [
     "relocation formulas of the new relocation types (S+A for R_X86_64_32/32S, S+A-P for PC32, S-TP for TPOFF32, GOT+A-P for GOTTPOFF) "
     "and their range checks as in linker-utils relocation_from_raw (C12 covers the table)",
     "__tls_get_addr(m,o) = tlsBase m + o and %fs:0 = TP are parameters of the TLS theorems",
+    "sequence-level semantics of the TLS theorems (X86Sem.decodeIns/stepIns/runSeq: byte decoder for lea/mov %fs:/add/movabs/call/nop forms, "
+    "call to __tls_get_addr abstracted with SysV call-clobbered registers unspecified, status flags not observed across the call) is spec-side and "
+    "not executed natively; static-TLS hypotheses (variant II: tlsBase = TP - (tpStart - tlsStart); tls_index words as wild's writer stores them) are "
+    "explicit hypotheses of tls_*_ok",
     "bv_decide (LRAT-checked SAT certificates) for 64-bit sign-extension / flag equalities",
 ]
 RULE = ("x86relax requests: templates of every relaxable instruction form x r_type x 16 value-flag combinations x 6 output kinds x section flags, at offsets "
